@@ -196,4 +196,14 @@ theorem C19_format_start_generated (D : Desc) (s : St) (f : Fsm) :
 theorem C19_list_start_generated (D : Desc) (s : St) : startPrintCmdList D s = Gen.start_print_cmd_list D s :=
   startPrintCmdList_generated D s
 
+/-- how an automatic TEST response ends (line break and description if there is one; then the test
+handler if there is one, else the line is sent and answered OK) and how the variable list advances
+(next variable, a comma if it fits, ERROR if it does not) are the text regenerated from
+`print_response_test` and `next_format_var_by_fsm` of the source (translator item T16; for the second
+one the model omits the NULL check of the command pointer, which its callers have made) -/
+theorem C19_format_steps_generated (D : Desc) (s : St) (f : Fsm) :
+    printResponseTest D s f = Gen.print_response_test D s f ∧
+    ((s.cmdOf f).isSome = true → nextFormatVar D s f = Gen.next_format_var_by_fsm D s f) :=
+  ⟨printResponseTest_generated D s f, nextFormatVar_generated D s f⟩
+
 end Cat
